@@ -382,6 +382,25 @@ def split_obs(job):
     return [cls[k]._split_scope(None, s) for k, s in job["cases"]]
 
 
+def groupmark_obs(job):
+    """the worker's half of loadgroup: the REAL WorkerInteractor.pytest_collection_modifyitems on stand-in items,
+    then the controller's REAL LoadGroupScheduling._split_scope on the id the worker produced.
+    case: [loadgroup(0/1), nodeid, [] | [[positional args], [] | [name keyword]]]"""
+    import types
+    from xdist.remote import WorkerInteractor
+    from xdist.scheduler import LoadGroupScheduling
+    out = []
+    for lg, nodeid, m in job["cases"]:
+        mark = None
+        if m:
+            mark = types.SimpleNamespace(args=tuple(m[0]), kwargs=({"name": m[1][0]} if m[1] else {}))
+        item = types.SimpleNamespace(nodeid=nodeid, _nodeid=nodeid, get_closest_marker=lambda name, mark=mark: mark if name == "xdist_group" else None)
+        cfg = types.SimpleNamespace(getvalue=lambda name, lg=lg: bool(lg) if name == "loadgroup" else None)
+        WorkerInteractor.pytest_collection_modifyitems(types.SimpleNamespace(), cfg, [item])
+        out.append([item._nodeid, LoadGroupScheduling._split_scope(None, item._nodeid)])
+    return out
+
+
 def replay(job):
     env = Env(job["mode"], job["numnodes"], job["chunk"])
     return [env.apply(op) for op in job["ops"]]
@@ -397,6 +416,8 @@ def main():
                 r = malformed(job)
             elif job["kind"] == "split":
                 r = split_obs(job)
+            elif job["kind"] == "groupmark":
+                r = groupmark_obs(job)
             elif job["kind"] == "replay":
                 r = replay(job)
             else:
